@@ -1385,6 +1385,54 @@ ok("C11", "Gibbs SVD truncation written as s < precision * s[0]", _sub(
 ok("C11", "Gibbs SVD truncation keeps at least one value, counted against the relative threshold", _sub(
     TB, _SVD_CUT, '        chi = max(1, np.count_nonzero(singular_values >= precision * amax(singular_values)))\n'))
 
+# ------------------------------------------------------------------ single-slot memos (C16 X10, C03 M5, C20 A7)
+_FPT_INIT = '        self._cap_tensors_data = None\n        self._cap_tensors_shape = None\n\n        if self._write:\n'
+_FPT_SET = '        a delta between the input and output leg.\n        """\n        _set_data_and_shape(step,\n                            data=self._mpo_tensors_data,\n'
+_FPT_GET_HEAD = '        `.transform_out`) when `transformed` is true.\n        """\n        tensor = _get_data_and_shape(step,\n                                     data=self._mpo_tensors_data,\n                                     shape=self._mpo_tensors_shape)\n        if transformed:\n'
+_FPT_GET_TAIL = '            if self._transform_out is not None:\n                tensor = np.dot(tensor, self._transform_out)\n        return tensor\n\n    def get_cap_tensor(self, step: int) -> ndarray:\n        """\n        Get the cap tensor (vector) to terminate the PT-MPO at time step `step`.\n        """\n        try:'
+def _slot_memo(init, test, store):
+    return _multi(
+        _sub(PTM, _FPT_INIT, '        self._cap_tensors_data = None\n        self._cap_tensors_shape = None\n        self._last_mpo = ' + init + '\n\n        if self._write:\n'),
+        _sub(PTM, _FPT_SET, '        a delta between the input and output leg.\n        """\n        self._last_mpo = ' + init + '\n        _set_data_and_shape(step,\n                            data=self._mpo_tensors_data,\n'),
+        _sub(PTM, _FPT_GET_HEAD, _FPT_GET_HEAD.replace('        tensor = _get_data_and_shape(step,', '        if ' + test + ':\n            return self._last_mpo[-1]\n        tensor = _get_data_and_shape(step,')),
+        _sub(PTM, _FPT_GET_TAIL, _FPT_GET_TAIL.replace('        return tensor\n', '        self._last_mpo = ' + store + '\n        return tensor\n', 1)))
+for _pid, _rule in (("C16", "X10"), ("C03", "M5"), ("C20", "A7")):
+    ok(_pid, "file-backed get_mpo_tensor remembers its last result per (step, transformed)",
+       _slot_memo('(None, None, None)', 'self._last_mpo[0] == step and self._last_mpo[1] == transformed',
+                  '(step, transformed, tensor)'))
+
+# ------------------------------------------------------------------ C19 P5: nothing that can raise after the timer start in enter()
+UT = "oqupy/util.py"
+_PB_ENTER = '        if self.title is not None:\n            print(self.title, file=self._file, flush=True)\n        with self._lock:\n            self._stopped = False\n            self._timer = Timer(1.0, self._print_status)\n            self._timer.start()\n        return self\n'
+brk("C19", "ProgressBar.enter prints the first status line after starting its timer", "P5", _sub(
+    UT, _PB_ENTER, _PB_ENTER.replace('        return self\n', '        self._print_status()\n        return self\n')))
+brk("C19", "ProgressBar.enter prints the title after starting its timer", "P5", _sub(
+    UT, _PB_ENTER, '        with self._lock:\n            self._stopped = False\n            self._timer = Timer(1.0, self._print_status)\n            self._timer.start()\n        if self.title is not None:\n            print(self.title, file=self._file, flush=True)\n        return self\n'))
+ok("C19", "ProgressBar.enter resets its step after starting the timer (plain store)", _sub(
+    UT, _PB_ENTER, _PB_ENTER.replace('        return self\n', '        self._step = None\n        return self\n')))
+ok("C19", "ProgressBar.enter flushes its output stream before starting its timer", _sub(
+    UT, _PB_ENTER, _PB_ENTER.replace('        with self._lock:\n', '        self._file.flush()\n        with self._lock:\n')))
+
+# ------------------------------------------------------------------ C18 O1: grouping the stacked chain controls by site
+_CC_LOOP = '        for ssc in ss_controls:\n            if ssc["step"] == step:\n                empty = False\n                if controls[ssc["site"]] is None:\n                    controls[ssc["site"]] = ssc["contr"]\n                else:\n                    controls[ssc["site"]] = \\\n                        ssc["contr"] @ controls[ssc["site"]]\n'
+def _cc_grouped(seq):
+    return _multi(
+        _sub(CT, 'from copy import deepcopy\n', 'from copy import deepcopy\nfrom functools import reduce\nfrom itertools import groupby\n'),
+        _sub(CT, _CC_LOOP, '        step_controls = [ssc for ssc in ss_controls if ssc["step"] == step]\n        empty = len(step_controls) == 0\n        for site, site_controls in groupby(' + seq + ',\n                                           key=lambda ssc: ssc["site"]):\n            controls[site] = reduce(\n                lambda acc, contr: contr @ acc,\n                [ssc["contr"] for ssc in site_controls])\n'))
+brk("C18", "chain controls of a step grouped by site with groupby on the insertion-ordered list", "O1",
+    _cc_grouped('step_controls'))
+ok("C18", "chain controls of a step grouped by site with groupby on the list sorted by site",
+   _cc_grouped('sorted(step_controls, key=lambda c: c["site"])'))
+
+# ------------------------------------------------------------------ C17 W2 / W6: the reset of the writing flag in a helper
+_FPT_CLOSE = '    def close(self):\n        """Close the HDF5 file."""\n        if self._f is not None:\n            if self._write and self._f.attrs["writing"]:\n                self._f.attrs["writing"] = False\n            self._f.close()\n'
+_FPT_CLOSE_HELPER = '    def _finish_writing(self):\n        """Mark the file as complete."""\n        if self._write and self._f.attrs["writing"]:\n            self._f.attrs["writing"] = False\n        self._f.flush()\n\n    def close(self):\n        """Close the HDF5 file."""\n        if self._f is not None:\n            self._finish_writing()\n            self._f.close()\n'
+ok("C17", "close() clears the writing flag through a helper that only close() calls", _sub(PTM, _FPT_CLOSE, _FPT_CLOSE_HELPER))
+brk("C17", "the helper that clears the writing flag is also called when the file is created", "W6", _multi(
+    _sub(PTM, _FPT_CLOSE, _FPT_CLOSE_HELPER),
+    _sub(PTM, '        self.set_initial_tensor(initial_tensor=None)\n\n    def _read_file(self, filename: Text):',
+         '        self.set_initial_tensor(initial_tensor=None)\n        self._finish_writing()\n\n    def _read_file(self, filename: Text):')))
+
 for _pid in ["C01", "C02", "C03", "C04", "C05", "C06", "C07", "C08", "C09", "C10", "C11", "C12", "C13",
              "C14", "C15", "C16", "C17", "C18", "C19", "C20"]:
     ok(_pid, "whole package re-printed with ast.unparse (layout, comments, line numbers)", _reformat_all)
@@ -1397,8 +1445,10 @@ for _pid in ["C01", "C02", "C03", "C04", "C05", "C06", "C07", "C08", "C09", "C10
        _generic.swap_comparisons)
     ok(_pid, "call arguments evaluated into temporaries first (x = f(a + b) -> h = a + b; x = f(h))",
        _generic.hoist_arguments)
-    ok(_pid, "temporaries, renaming, branch flipping, comparison swapping and keyword reversal combined",
-       _generic.all_rewrites)
+    ok(_pid, "positional arguments of calls to package functions / self methods passed by keyword",
+       _generic.keyword_arguments)
+    ok(_pid, "temporaries, keyword arguments, renaming, branch flipping, comparison swapping and "
+             "keyword reversal combined", _generic.all_rewrites)
 
 ok("C02", "selector locals renamed in Tempo._influence", _multi(
     _sub(TE, "tmp_deg_positions", "positions_pair", count=100)))
